@@ -6,6 +6,7 @@ import (
 	"math/rand"
 	"strings"
 	"sync"
+	"sync/atomic"
 	"time"
 
 	"verif/fw"
@@ -37,6 +38,10 @@ type c20Case struct {
 
 var c20Tokens = []string{"hello", " ", "world", "x", "\x01", "\x05", "\x02", "\x06", "\x1bb", "\x1bf", "\x0b", "\x19", "\x7f", "foo bar", "\x14", "-", "\x10", "\x0e"}
 
+// commands that read an argument key: command and argument are two tokens, so that a
+// disturbance can be fired while the command waits for its argument
+var c20ArgCmds = [][2]string{{"\x11", "a"}, {"\x16", "b"}, {"\x1d", "o"}, {"\x1b\x1d", "l"}}
+
 func c20Gen(r *rand.Rand, tier string, idx int) any {
 	c := c20Case{}
 	c.Mode = "emacs"
@@ -44,9 +49,20 @@ func c20Gen(r *rand.Rand, tier string, idx int) any {
 	c.Inputrc = "set history-autosuggest off\n"
 	c.Hist = []string{"echo one", "ls -la two"}
 	n := 3 + r.Intn(8)
-	for i := 0; i < n; i++ {
+	var argAt []int
+	for len(c.Tokens) < n {
+		if r.Intn(6) == 0 {
+			ac := pick(r, c20ArgCmds)
+			c.Tokens = append(c.Tokens, ac[0], ac[1])
+			argAt = append(argAt, len(c.Tokens)-1)
+			continue
+		}
 		c.Tokens = append(c.Tokens, pick(r, c20Tokens))
 	}
+	n = len(c.Tokens)
+	// Half of the cases have a clean schedule: every disturbance is fired while the main loop
+	// is parked in its terminal read and runs to its end before the next key is typed.
+	clean := idx%2 == 0
 	nd := 1 + r.Intn(3)
 	for i := 0; i < nd; i++ {
 		d := c20Dist{}
@@ -58,8 +74,15 @@ func c20Gen(r *rand.Rand, tier string, idx int) any {
 		d.N = 2 + r.Intn(19)
 		d.Settle = r.Intn(4) != 0
 		d.Order = pick(r, []string{"main-first", "other-first", "one-write"})
+		if clean {
+			d.Trig, d.Settle = "t1", true
+			d.Kind = pick(r, []string{"winch", "printf"})
+		}
 		if d.Trig == "t1" {
 			d.At = r.Intn(n + 1)
+			if len(argAt) > 0 && r.Intn(2) == 0 {
+				d.At = pick(r, argAt) // between a command and its argument key
+			}
 		} else {
 			d.At = 2 + r.Intn(n)
 		}
@@ -68,11 +91,26 @@ func c20Gen(r *rand.Rand, tier string, idx int) any {
 	return c
 }
 
+// c20Clean: the schedule has only settled single disturbances at input waits.
+func c20Clean(c *c20Case) bool {
+	for _, d := range c.Dists {
+		if d.Trig != "t1" || !d.Settle || d.Kind == "burst" {
+			return false
+		}
+	}
+	return true
+}
+
 type c20Run struct {
 	line, err string
 	returned  bool
 	res       *sess.Result
 	realised  []string
+	async     []string // disturbers found blocked for good: "frames" signatures
+	unsettled int      // settle waits that ended without confirmation
+	hungPrint int      // Shell.Printf calls that never returned
+	dump      string
+	leftover  bool // resize / Printf goroutines of the session still exist after it
 }
 
 func c20Session(env *fw.Env, c *c20Case, disturb bool) *c20Run {
@@ -85,6 +123,7 @@ func c20Session(env *fw.Env, c *c20Case, disturb bool) *c20Run {
 	sizes := [][2]int{{c.W - 7, c.H - 2}, {c.W, c.H}, {c.W + 9, c.H + 1}, {c.W - 3, c.H}}
 	sizeIdx := 0
 	msgs := 0
+	var printfActive int64
 	var fireMu sync.Mutex
 	fire := func(s *sess.Session, d c20Dist) {
 		fireMu.Lock()
@@ -104,33 +143,149 @@ func c20Session(env *fw.Env, c *c20Case, disturb bool) *c20Run {
 			msgs++
 			k := msgs
 			wg.Add(1)
+			atomic.AddInt64(&printfActive, 1)
 			go func() {
 				defer wg.Done()
+				defer atomic.AddInt64(&printfActive, -1)
 				s.Sh.Printf("async message %d", k)
 			}()
 		}
 	}
+	// blockedFor returns the signature of disturber goroutines that sit, in two dumps taken
+	// apart, at the same blocking operation inside the cursor-position query.
+	// goroutines left over from earlier sessions of this worker process are not this session's
+	stale := map[string]bool{}
+	gid := func(g string) string { return strings.SplitN(g, " [", 2)[0] }
+	for _, marker := range []string{"display.WatchResize.func1", "(*Shell).Printf"} {
+		for _, g := range sess.Stanzas(sess.AllStacks(), marker) {
+			stale[gid(g)] = true
+		}
+	}
+	blockedFor := func() string {
+		sigOf := func(dump string) []string {
+			var out []string
+			for _, marker := range []string{"display.WatchResize.func1", "(*Shell).Printf"} {
+				for _, g := range sess.Stanzas(dump, marker) {
+					if !strings.Contains(g, "core.(*Keys).GetCursorPos") || stale[gid(g)] {
+						continue
+					}
+					st, fr := sess.BlockState(g)
+					switch st {
+					case "IO wait", "syscall", "chan receive", "chan send", "select", "sync.Mutex.Lock", "sync.RWMutex.Lock", "sync.RWMutex.RLock", "semacquire":
+						var lib []string
+						for _, f := range fr {
+							if strings.Contains(f, "reeflective/readline") {
+								f = f[strings.LastIndex(f, "/")+1:]
+								lib = append(lib, f)
+							}
+							if len(lib) == 3 {
+								break
+							}
+						}
+						out = append(out, st+"@"+strings.Join(lib, "<"))
+					}
+				}
+			}
+			sortStrings(out)
+			return out
+		}
+		d1 := sigOf(sess.AllStacks())
+		if len(d1) == 0 {
+			return ""
+		}
+		time.Sleep(300 * time.Millisecond)
+		dump := sess.AllStacks()
+		d2 := sigOf(dump)
+		if strings.Join(d1, ";") != strings.Join(d2, ";") {
+			return ""
+		}
+		mu.Lock()
+		out.dump = dump
+		mu.Unlock()
+		return d1[0]
+	}
+	resizeBusy := func() bool {
+		for _, g := range sess.Stanzas(sess.AllStacks(), "display.WatchResize.func1") {
+			if stale[gid(g)] {
+				continue
+			}
+			if strings.Contains(g, "display.(*Engine).Refresh") || strings.Contains(g, "GenerateCached") {
+				return true
+			}
+		}
+		return false
+	}
+	// settle: the disturbance has run to its end (plumbing polls; the verdicts are logical:
+	// goroutine finished / parked again, or blocked at the same place in two dumps)
+	settle := func(d c20Dist, dsr0 int) {
+		for k := 0; k < 1000; k++ {
+			time.Sleep(2 * time.Millisecond)
+			if dsrCount(env.T) == dsr0 {
+				continue // the disturber has not redisplayed yet
+			}
+			done := false
+			if d.Kind == "printf" {
+				done = atomic.LoadInt64(&printfActive) == 0
+			} else {
+				done = !resizeBusy()
+			}
+			if done {
+				return
+			}
+		}
+		if b := blockedFor(); b != "" {
+			mu.Lock()
+			out.async = append(out.async, b)
+			mu.Unlock()
+			return
+		}
+		mu.Lock()
+		out.unsettled++
+		mu.Unlock()
+	}
 	cfg.Actions = map[string]func(s *sess.Session, arg string){
+		// unsettled disturbances: fired from the gate, the next keys follow at once
 		"dist": func(s *sess.Session, arg string) {
 			var i int
 			fmt.Sscan(arg, &i)
 			d := c.Dists[i]
-			dsr0 := dsrCount(env.T)
 			fire(s, d)
 			mu.Lock()
-			out.realised = append(out.realised, fmt.Sprintf("t1|%s|settle=%v", d.Kind, d.Settle))
+			out.realised = append(out.realised, fmt.Sprintf("t1|%s|settle=false", d.Kind))
 			mu.Unlock()
-			if d.Settle {
-				// plumbing: give the disturber the time to do its redisplay (its cursor query
-				// is answered by the emulator), at most 300 ms
-				for k := 0; k < 300; k++ {
-					time.Sleep(time.Millisecond)
-					if dsrCount(env.T) > dsr0 && k > 5 {
-						break
-					}
-				}
-				time.Sleep(3 * time.Millisecond)
+		},
+		// settled disturbances: the gate delivers nothing, the main loop goes to its terminal
+		// read; a helper fires the disturbances one after the other, lets each run to its end,
+		// then types the next keys itself
+		"settled": func(s *sess.Session, arg string) {
+			s.Hold()
+			kind := "main"
+			if w := s.LastWaitKind(); w != "" {
+				kind = w
 			}
+			wg.Add(1)
+			go func() {
+				defer wg.Done()
+				for _, f := range strings.Split(arg, ",") {
+					var i int
+					fmt.Sscan(f, &i)
+					d := c.Dists[i]
+					// the main loop must be inside its read before the disturbance starts
+					for k := 0; k < 500 && !s.InRead(); k++ {
+						time.Sleep(time.Millisecond)
+					}
+					dsr0 := dsrCount(env.T)
+					fire(s, d)
+					settle(d, dsr0)
+					mu.Lock()
+					out.realised = append(out.realised, fmt.Sprintf("t1|%s|settled|%s-wait", d.Kind, kind))
+					mu.Unlock()
+				}
+				for _, st := range s.TakeSteps(1) {
+					env.T.M.Write([]byte(st.W))
+				}
+				s.Release()
+			}()
 		},
 	}
 	s := sess.New(env.T, env.Scratch, cfg)
@@ -147,17 +302,40 @@ func c20Session(env *fw.Env, c *c20Case, disturb bool) *c20Run {
 			}
 		}
 	}
+	distStep := func(ds []int) []sess.Step {
+		var settled []string
+		var out []sess.Step
+		for _, i := range ds {
+			if c.Dists[i].Settle && c.Dists[i].Kind != "burst" {
+				settled = append(settled, fmt.Sprint(i))
+			} else if len(out) == 0 {
+				out = append(out, sess.Step{Do: "dist", Arg: fmt.Sprint(i), Tag: "dist"})
+			}
+		}
+		if len(settled) > 0 {
+			return []sess.Step{{Do: "settled", Arg: strings.Join(settled, ","), Tag: "dist"}}
+		}
+		return out
+	}
 	for i, tok := range c.Tokens {
 		st := sess.Step{W: tok, Tag: "tok"}
-		if ds := t1[i]; len(ds) > 0 {
-			st.Do, st.Arg = "dist", fmt.Sprint(ds[0])
+		if ds := distStep(t1[i]); len(ds) > 0 {
+			if ds[0].Do == "dist" {
+				st.Do, st.Arg = ds[0].Do, ds[0].Arg
+			} else {
+				plan = append(plan, ds[0])
+			}
 		}
 		plan = append(plan, st)
 	}
 	// after the script: one harmless key pair forces a redisplay once disturbances are over
 	fin := sess.Step{W: "\x01", Tag: "final-redisplay"}
-	if ds := t1[len(c.Tokens)]; len(ds) > 0 {
-		fin.Do, fin.Arg = "dist", fmt.Sprint(ds[0])
+	if ds := distStep(t1[len(c.Tokens)]); len(ds) > 0 {
+		if ds[0].Do == "dist" {
+			fin.Do, fin.Arg = ds[0].Do, ds[0].Arg
+		} else {
+			plan = append(plan, ds[0])
+		}
 	}
 	plan = append(plan, fin, sess.Step{W: "\x05", Tag: "final-redisplay"})
 	if disturb && len(t2) > 0 {
@@ -220,9 +398,46 @@ func c20Session(env *fw.Env, c *c20Case, disturb bool) *c20Run {
 	select {
 	case <-done:
 	case <-time.After(2 * time.Second):
+		if n := int(atomic.LoadInt64(&printfActive)); n > 0 {
+			if b := blockedFor(); b != "" {
+				out.hungPrint = n
+				out.async = append(out.async, b)
+			}
+		}
+	}
+	// goroutines of this session that outlive it would read the next session's terminal
+	for k := 0; k < 20; k++ {
+		out.leftover = false
+		dump := sess.AllStacks()
+		for _, marker := range []string{"display.WatchResize.func1", "(*Shell).Printf"} {
+			for _, g := range sess.Stanzas(dump, marker) {
+				if !stale[gid(g)] {
+					out.leftover = true
+				}
+			}
+		}
+		if !out.leftover {
+			break
+		}
+		time.Sleep(10 * time.Millisecond)
 	}
 	out.line, out.err, out.returned, out.res = res.Line, res.Err, res.Returned, res
 	return out
+}
+
+// c20TrimDump keeps the goroutines of a dump that run library code.
+func c20TrimDump(dump string) string {
+	var keep []string
+	for _, g := range strings.Split(dump, "\n\n") {
+		if strings.Contains(g, "reeflective/readline") {
+			lines := strings.Split(g, "\n")
+			if len(lines) > 24 {
+				lines = lines[:24]
+			}
+			keep = append(keep, strings.Join(lines, "\n"))
+		}
+	}
+	return strings.Join(keep, "\n\n")
 }
 
 func dsrCount(t *sess.Term) int {
@@ -246,6 +461,34 @@ func c20RunCase(env *fw.Env, raw json.RawMessage) fw.Outcome {
 	}
 	dist := c20Session(env, &c, true)
 	o.O.Events += 2
+	// Findings are keyed by the schedule class: with a clean schedule (single disturbances fired
+	// while the main loop is parked in its read, each run to its end before the next key) the
+	// library's hand-over of cursor reports is deterministic; overlapping schedules hit the
+	// known unsynchronised paths.
+	class := "overlapping-schedule"
+	if c20Clean(&c) {
+		class = "clean-schedule"
+		if dist.unsettled > 0 {
+			class = "overlapping-schedule"
+			o.Add("clean_schedules_with_an_unconfirmed_settle", 1)
+		}
+	}
+	o.Add("cases_"+class, 1)
+	nf0 := len(o.O.Findings)
+	defer func() {
+		for i := nf0; i < len(o.O.Findings); i++ {
+			o.O.Findings[i].Sig = class + "|" + o.O.Findings[i].Sig
+		}
+	}()
+	if len(dist.async) > 0 || dist.unsettled > 0 || dist.hungPrint > 0 || dist.leftover {
+		if dist.leftover {
+			o.Add("sessions_leaving_goroutines_behind_worker_recycled_"+class, 1)
+		}
+		o.O.Recycle = true // goroutines of this session are left behind: fresh process for the next case
+	}
+	for _, b := range dist.async {
+		o.Viol("async-redisplay-blocked-for-good:"+b, ctx+fmt.Sprintf(" realised=%v: a resize / Printf goroutine sits at the same blocking operation of its cursor-position query in two dumps taken apart (its report went elsewhere); Printf calls that never returned: %d\n%s", dist.realised, dist.hungPrint, c20TrimDump(dist.dump)))
+	}
 	for _, r := range dist.realised {
 		o.Cover(r)
 		o.Set("trigger_points_realised", r)
@@ -285,6 +528,7 @@ func c20RunCase(env *fw.Env, raw json.RawMessage) fw.Outcome {
 				}
 			}
 			o.Add("final_frames_judged", 1)
+			o.Add("final_frames_judged_"+class, 1)
 			switch {
 			case !okRow:
 				o.Viol("screen-inconsistent-after-the-next-redisplay|cursor-row-is-not-prompt+buffer", ctx+fmt.Sprintf(" realised=%v cursor row %d shows %q, expected %q", dist.realised, row, got, want))
@@ -330,11 +574,11 @@ func init() {
 		Post: func(a *fw.Agg) {
 			n := 0
 			for sig, f := range a.Findings {
-				if strings.HasPrefix(sig, "screen-inconsistent-after-the-next-redisplay") {
+				if strings.HasPrefix(sig, "overlapping-schedule|screen-inconsistent-after-the-next-redisplay") {
 					n += f.Count
 				}
 			}
-			judged := a.Count["final_frames_judged"]
+			judged := a.Count["final_frames_judged_overlapping-schedule"]
 			if judged >= 30 && n*100 > judged*3 {
 				a.Viol(-1, "final-frames-wrong-above-the-calibrated-rate", fmt.Sprintf("%d of %d judged final frames are wrong (calibrated bound 3 %%)", n, judged))
 			}
